@@ -141,6 +141,8 @@ MUTANTS["C16"] = [
     # (taking `old` from the full configuration there is an equivalent mutant: _diff_and_patch applies the safe ACL to old again)
     ("diff-worker-drops-filter-acl", "annet/diff.py", "                [acl_rules, res.filter_acl_rules],", "                [acl_rules],"),
     ("diff-worker-diffs-new-against-new", "annet/diff.py", "            diff_tree = patching.make_diff(\n                old,", "            diff_tree = patching.make_diff(\n                new,"),
+    ("diff-printer-forgets-moved-rows", "annet/annlib/diff.py", "    ops = [(order, op) for op, order in ops_order.items()]\n    ops.sort()\n    for (raw_rule, content) in pre.items():", "    ops = [(order, op) for op, order in ops_order.items() if op != Op.MOVED]\n    ops.sort()\n    for (raw_rule, content) in pre.items():"),
+    ("cisco-vlandb-expansion-shared-and-updated-in-place", "annet/rulebook/cisco/vlandb.py", "    prefix = None\n    vlandb = set()\n    blocks = {}", "    prefix = None\n    vlandb = _parse_vlancfg_actions.__dict__.setdefault('cache', {}).setdefault(tuple(a['row'] for a in actions), set())\n    blocks = {}"),
 ]
 
 MUTANTS["C20"] = [
